@@ -34,13 +34,13 @@ def shapes(n, kind):
 
 
 def recycled(kind):
-    """the same machine on a RECYCLED KSI_HighAvailabilityRequest wrapper that was released in an arbitrary state
+    """the same machine on a RECYCLED KSI_HighAvailabilityRequest wrapper that was released with 2 replies outstanding
     (ctx->haRequestRecycle active): all endpoints fail / one answers"""
     out = []
     for val, rd in (((0, 0), (0, 0)), ((0, 0), (1, 0)), ((0, 1), (0, 1))):
         pad = lambda t: ",".join(map(str, list(t) + [0]))
         out.append({"label": "recycled_n2_a11_v%s_r%s" % ("".join(map(str, val)), "".join(map(str, rd))),
-                    "defines": ["NSUB=2", "KIND=%d" % kind, "ACCEPT={1,1,0}", "VALID={%s}" % pad(val), "ROUND={%s}" % pad(rd), "RECYCLE_STALE=1"]})
+                    "defines": ["NSUB=2", "KIND=%d" % kind, "ACCEPT={1,1,0}", "VALID={%s}" % pad(val), "ROUND={%s}" % pad(rd), "RECYCLE_STALE=2"]})
     return out
 
 
@@ -98,7 +98,7 @@ plan = {
   "H-2: consolidation and announcement go through user callbacks (KSI_ASYNC_OPT_CONF_CONSOLIDATE_CALLBACK / PUSH_CONF_CALLBACK stubs returning KSI_OK); the built-in consolidation is H-3's subject",
   "H-3: real types.c KSI_Config and real types_base.c KSI_Integer functions; the KSI_Integer objects fed in are built as KSI_Integer_new builds them for values outside the 256-entry small-integer pool (heap object, ref 1) also for small values - every function used treats both alike except that pool members are never released",
   "H-3: KSI_isHashAlgorithmTrusted is a stub with a symbolic verdict (hash.c not linked); parent-URI lists absent",
-  "KSI_AbstractAsyncService_new (net.c) modelled as plain allocation with all callbacks NULL; handle and HA-request recycling lists off (every release is a real free)",
+  "KSI_AbstractAsyncService_new (net.c) modelled as plain allocation with all callbacks NULL; handle and HA-request recycling lists off (every release is a real free) except in H-4 and the recycled_* instances of H-1/H-2, where ctx->haRequestRecycle is a real list",
   "typed lists of KSI_AsyncHandle / KSI_AsyncService / KSI_HighAvailabilityRequest instantiated in the harness with the same KSI_IMPLEMENT_LIST lines as types.c:201-203 over the real list.c",
   "function-pointer restrictions (destructor call sites of KSI_AsyncHandle_cleanup) are proof obligations inserted by goto-instrument, not assumptions"
  ],
